@@ -25,6 +25,9 @@ type gen struct {
 // the dotted variants exercise everything that addresses the model by dotted paths.
 var genSvc, genRes, genKey = "s", "r", "k1"
 
+// genSecond: with PAIR=1, the value a second service / resource carries for the same attribute (nil: none).
+var genSecond any
+
 // genNoExt is set by a harness before genPick when extension attributes are out of its scope.
 var genNoExt bool
 
@@ -306,7 +309,14 @@ func genPick(atom, num, dur string) (site genSite, attr string, value any, ok bo
 	pm, _ := props[attr].(map[string]any)
 	ex := g.examples(pm, 0)
 	vrtAssume(len(ex) > 0)
-	value = ex[vrtChoice("example", len(ex))]
+	k := vrtChoice("example", len(ex))
+	value = ex[k]
+	genSecond = nil
+	if vrtParam("PAIR", 0) == 1 && len(ex) > 1 {
+		// a second service / resource carries the next example of the same attribute: loops over services and
+		// resources meet two different shapes
+		genSecond = genCopy(ex[(k+1)%len(ex)])
+	}
 	return site, attr, value, true
 }
 
@@ -331,6 +341,14 @@ func genDoc(site genSite, attr string, value any) map[string]any {
 		}
 		r[attr] = value
 		doc[site.section].(map[string]any)[genRes] = r
+		if genSecond != nil {
+			r2 := genClone(r)
+			r2[attr] = genCopy(genSecond)
+			doc[site.section].(map[string]any)["a2"] = r2
+		}
+	}
+	if genSecond != nil && site.section == "services" {
+		doc["services"].(map[string]any)["a2"] = map[string]any{"image": "i", attr: genCopy(genSecond)}
 	}
 	return doc
 }
